@@ -3,6 +3,7 @@ CONSTANTS
  Callers <- K3
  Mode = "lit"
  ReCheck = TRUE
+ OwnStart = TRUE
  D7Stutter = FALSE
 INVARIANT OneRunner
 INVARIANT OneLockPerLoop
